@@ -84,30 +84,36 @@ class Libs:
 
     def load_sa(self, eng, data):
         with eng.begin() as conn:
-            for model in ("Author", "Post", "Comment"):
-                if data[model]:
+            for model in ("Label", "Kind", "Author", "Post", "Comment"):
+                if data.get(model):
                     conn.execute(self.sm.TABLES[model].insert(), data[model])
 
     def load_dj(self, data):
         conn = self.dj_connection
         if not self._dj_tables:
             with conn.schema_editor() as ed:
-                for m in ("Author", "Post", "Comment"):
+                for m in ("Label", "Kind", "Author", "Post", "Comment"):
                     ed.create_model(self.dm.MODELS[m])
             self._dj_tables = True
         with conn.cursor() as cur:
-            for tbl in ("comment", "post", "author"):
+            for tbl in ("post_editors", "comment", "post", "author", "label", "kind"):
                 cur.execute("DELETE FROM %s" % tbl)
+            for tbl, key in (("label", "Label"), ("kind", "Kind")):
+                cur.executemany("INSERT INTO %s (id, name) VALUES (%%s, %%s)" % tbl,
+                                [(r["id"], r["name"]) for r in data.get(key, [])])
             cur.executemany("INSERT INTO author (id, name) VALUES (%s, %s)",
                             [(r["id"], r["name"]) for r in data["Author"]])
             cur.executemany(
-                "INSERT INTO post (id, title, rating, author_id) VALUES (%s, %s, %s, %s)",
-                [(r["id"], r["title"], r["rating"], r["author_id"]) for r in data["Post"]])
+                "INSERT INTO post (id, title, rating, author_id, tag_id) VALUES (%s, %s, %s, %s, %s)",
+                [(r["id"], r["title"], r["rating"], r["author_id"], r.get("tag_id"))
+                 for r in data["Post"]])
+            cur.executemany("INSERT INTO post_editors (post_id, author_id) VALUES (%s, %s)",
+                            [tuple(x) for x in data.get("PostEditors", [])])
             cur.executemany(
-                "INSERT INTO comment (id, body, post_id, writer_id, co_writer_id) "
-                "VALUES (%s, %s, %s, %s, %s)",
-                [(r["id"], r["body"], r["post_id"], r["writer_id"], r.get("co_writer_id"))
-                 for r in data["Comment"]])
+                "INSERT INTO comment (id, body, post_id, writer_id, co_writer_id, tag_id) "
+                "VALUES (%s, %s, %s, %s, %s, %s)",
+                [(r["id"], r["body"], r["post_id"], r["writer_id"], r.get("co_writer_id"),
+                  r.get("tag_id")) for r in data["Comment"]])
 
 
 class HostQuery:
